@@ -19,3 +19,7 @@ func (s *Server) VerifWaitNodeAuthorizers(stop <-chan struct{}) {
 		kube.WaitForCacheSync("verif-c09", stop, c.pods.HasSynced)
 	}
 }
+
+// VerifSetCA swaps the signing CA of a server (the harness reuses one server, with its informers,
+// across many CA configurations).
+func (s *Server) VerifSetCA(c CertificateAuthority) { s.ca = c }
